@@ -46,31 +46,39 @@ fn main() {
     let prop = drv.to_uppercase();
     let mut t = Tracer::new(&o.out, o.shards, &prop, o.only.clone());
     let mut extra = serde_json::json!({});
-    match drv.as_str() {
-        "c03" => drv_bw::c03(&o, &mut t),
-        "c04" => drv_bw::c04(&o, &mut t),
-        "c18" => drv_bw::c18(&o, &mut t),
-        "c19" => drv_bw::c19(&o, &mut t),
-        "c07" => extra = drv_br::c07(&o, &mut t),
-        "c08" => extra = drv_br::c08(&o, &mut t),
-        "c05" => extra = drv_head::c05(&o, &mut t),
-        "c20" => extra = drv_head::c20(&o, &mut t),
-        "c06" => extra = drv_head::c06(&o, &mut t),
-        "c09" => extra = drv_flow::c09(&o, &mut t),
-        "c10" => extra = drv_flow::c10(&o, &mut t),
-        "c11" => extra = drv_flow::c11(&o, &mut t),
-        "c13" | "c14" => extra = drv_redir::c13_14(&o, &mut t, drv == "c13"),
-        "c15" => extra = drv_redir::c15(&o, &mut t),
-        "c12" => extra = drv_hostile::c12(&o, &mut t),
-        "c01" => extra = drv_c01::c01(&o, &mut t),
-        "x01" => extra = drv_call::x01(&o, &mut t),
-        "c02" => extra = drv_req::c02(&o, &mut t),
-        "c16" => extra = drv_req::c16(&o, &mut t),
-        "c17" => extra = drv_req::c17(&o, &mut t),
-        _ => {
-            eprintln!("unknown driver {}", drv);
-            std::process::exit(2);
+    // a panic of the harness's own bookkeeping (an answer so far outside its expectations that it cannot go on driving)
+    // is data about the code under test, not a crash of the check: it is logged and judged like a panic of the code
+    let run = std::panic::catch_unwind(std::panic::AssertUnwindSafe(|| {
+        match drv.as_str() {
+            "c03" => drv_bw::c03(&o, &mut t),
+            "c04" => drv_bw::c04(&o, &mut t),
+            "c18" => drv_bw::c18(&o, &mut t),
+            "c19" => drv_bw::c19(&o, &mut t),
+            "c07" => extra = drv_br::c07(&o, &mut t),
+            "c08" => extra = drv_br::c08(&o, &mut t),
+            "c05" => extra = drv_head::c05(&o, &mut t),
+            "c20" => extra = drv_head::c20(&o, &mut t),
+            "c06" => extra = drv_head::c06(&o, &mut t),
+            "c09" => extra = drv_flow::c09(&o, &mut t),
+            "c10" => extra = drv_flow::c10(&o, &mut t),
+            "c11" => extra = drv_flow::c11(&o, &mut t),
+            "c13" | "c14" => extra = drv_redir::c13_14(&o, &mut t, drv == "c13"),
+            "c15" => extra = drv_redir::c15(&o, &mut t),
+            "c12" => extra = drv_hostile::c12(&o, &mut t),
+            "c01" => extra = drv_c01::c01(&o, &mut t),
+            "x01" => extra = drv_call::x01(&o, &mut t),
+            "c02" => extra = drv_req::c02(&o, &mut t),
+            "c16" => extra = drv_req::c16(&o, &mut t),
+            "c17" => extra = drv_req::c17(&o, &mut t),
+            _ => {
+                eprintln!("unknown driver {}", drv);
+                std::process::exit(2);
+            }
         }
+    }));
+    if let Err(p) = run {
+        let msg = p.downcast_ref::<String>().cloned().or_else(|| p.downcast_ref::<&str>().map(|s| s.to_string())).unwrap_or_else(|| "panic".into());
+        t.ev(serde_json::json!({"ev":"stuck","during":format!("driving the code under test (harness could not continue: {})", msg.chars().take(120).collect::<String>())}));
     }
     let (c, e) = (t.cases, t.events);
     extra["tier"] = serde_json::json!(o.tier);
